@@ -4,7 +4,8 @@
    jpeg_nbits.h).  Generated facts: gen/GenNbits.v, gen/GenStdHuff.v. *)
 From Coq Require Import List ZArith Bool Permutation.
 From LJT Require Import model.Huff gen.GenNbits gen.GenStdHuff proofs.NbitsProofs proofs.HuffCodeProofs
-  proofs.HuffGenProofs3 proofs.HuffGenProofs4 proofs.HuffGenDepth.
+  proofs.HuffGenProofs3 proofs.HuffGenProofs4 proofs.HuffGenDepth
+  gen.GenHuffGen proofs.HuffGenConst.
 Import ListNotations.
 Local Open Scope Z_scope.
 
@@ -62,8 +63,8 @@ Print Assumptions C19_std_tables_accepted.
    For EVERY histogram with non-negative counts, total below 10^9 and at most 254
    symbols of non-zero count (images produce at most 226, see design/C19.md):
    the generator never runs out of fuel and never indexes below bits[0]; it either
-   raises JERR_HUFF_CLEN_OVERFLOW (exactly when an untruncated code length
-   exceeds MAX_CLEN = 32: known finding F15) or returns a table in which every
+   raises JERR_HUFF_CLEN_OVERFLOW (an untruncated code length above MAX_CLEN = 64;
+   C19_gen_table_always_valid below shows this branch is impossible) or returns a table in which every
    symbol of non-zero count occurs exactly once with a length of 1..16 bits
    (sum bits = number of such symbols, bits[0] = 0), and whose Kraft sum is
    2^16 - 2^(16-L): exactly one unused code point of the longest length L, so
@@ -75,7 +76,7 @@ Theorem C19_gen_table_valid : forall freq256 : list Z,
   (length (nz_scan (firstn 256 freq256) 0) <= 254)%nat ->
   match gen_optimal_table freq256 with
   | inl ClenOverflow =>
-      exists cs nz, gen_codesizes freq256 = inr (nz, cs) /\ exists c, In c cs /\ c > 32
+      exists cs nz, gen_codesizes freq256 = inr (nz, cs) /\ exists c, In c cs /\ c > 64
   | inl OutOfFuel => False
   | inl IndexUnderflow => False
   | inr t =>
@@ -123,23 +124,33 @@ Theorem C19_uint8_wrap_boundary :
 Proof. exact gen_table_uint8_wrap_sharp. Qed.
 Print Assumptions C19_uint8_wrap_boundary.
 
-Theorem C19_clen_overflow_refuted :
-  hyps (fibs 36 1 2) /\ gen_optimal_table (fibs 36 1 2) = inl ClenOverflow.
+Theorem C19_deep_histogram_gets_a_table :
+  hyps (fibs 36 1 2) /\
+  (exists nz cs, gen_codesizes (fibs 36 1 2) = inr (nz, cs) /\ In 36 cs) /\
+  exists t, gen_optimal_table (fibs 36 1 2) = inr t /\
+            h_bits t = [0; 1; 1; 1; 1; 1; 1; 1; 1; 1; 1; 1; 0; 0; 2; 0; 23] /\
+            valid_table t = true.
 Proof. exact gen_table_deep_boundary. Qed.
-Print Assumptions C19_clen_overflow_refuted.
+Print Assumptions C19_deep_histogram_gets_a_table.
 
-(* ---- when can the CLEN_OVERFLOW branch occur?  A code length c forces the
-   total count (incl. the pseudo-symbol) to be at least fib (c + 2): greedy
-   merging of the two smallest frequencies makes every subtree of depth d weigh
-   at least fib (d + 2).  Hence below fib 35 = 9227465 the generator ALWAYS
-   returns a valid table, and the bound is exact (witnesses below). *)
-Theorem C19_gen_no_clen_overflow : forall freq256,
+(* ---- the CLEN_OVERFLOW branch is impossible.  A code length c forces the total
+   count (incl. the pseudo-symbol) to be at least fib (c + 2): greedy merging of
+   the two smallest frequencies makes every subtree of depth d weigh at least
+   fib (d + 2).  MAX_CLEN = 64 (read from jchuff.c, C19_source_constants) would
+   need a total of fib 67 > 4.4e13, the hypotheses allow 10^9.  (With the
+   original MAX_CLEN = 32 the branch was reachable from fib 35 = 9227465 on:
+   finding F15, repaired.) *)
+Theorem C19_gen_table_always_valid : forall freq256 : list Z,
   (forall f, In f freq256 -> 0 <= f) ->
-  sumZ (firstn 256 freq256) + 1 < 9227465 ->
+  sumZ (firstn 256 freq256) + 1 <= SENT ->
   (length (nz_scan (firstn 256 freq256) 0) <= 254)%nat ->
-  gen_optimal_table freq256 <> inl ClenOverflow.
-Proof. exact gen_no_clen_overflow. Qed.
-Print Assumptions C19_gen_no_clen_overflow.
+  exists t, gen_optimal_table freq256 = inr t /\
+    good_table t (map fst (nz_scan (firstn 256 freq256) 0)) /\
+    valid_table t = true /\
+    (exists ct, make_c_derived (h_bits t) (h_vals t) 255 = Some ct) /\
+    (forall isDC, exists dt, make_d_derived (h_bits t) (h_vals t) isDC 255 = Some dt).
+Proof. exact gen_table_always_valid. Qed.
+Print Assumptions C19_gen_table_always_valid.
 
 Theorem C19_codesize_forces_fibonacci_total : forall freq256 nz cs,
   (forall f, In f freq256 -> 0 <= f) ->
@@ -150,18 +161,37 @@ Theorem C19_codesize_forces_fibonacci_total : forall freq256 nz cs,
 Proof. exact gen_codesizes_fib. Qed.
 Print Assumptions C19_codesize_forces_fibonacci_total.
 
-(* sharpness: total = fib 35 - 1 still yields a table (with a 32-bit untruncated
-   code length among the code sizes); total = fib 35 exactly can overflow *)
-Theorem C19_no_overflow_at_fib35_minus_1 :
-  hyps (fibs 32 1 2) /\ sumZ (fibs 32 1 2) = 9227463 /\
-  (exists nz cs, gen_codesizes (fibs 32 1 2) = inr (nz, cs) /\ In 32 cs) /\
-  exists t, gen_optimal_table (fibs 32 1 2) = inr t.
-Proof. exact gen_no_overflow_32. Qed.
-Print Assumptions C19_no_overflow_at_fib35_minus_1.
+(* the Fibonacci bound is exact: total fib 35 - 1 keeps every length <= 32, total
+   fib 35 reaches 33; and the deepest histogram the 10^9 limit admits (41 symbols,
+   length 41) still gets a valid table *)
+Theorem C19_codesizes_le_32_below_fib35 : forall freq256 nz cs,
+  (forall f, In f freq256 -> 0 <= f) ->
+  sumZ (firstn 256 freq256) + 1 < 9227465 ->
+  (length (nz_scan (firstn 256 freq256) 0) <= 254)%nat ->
+  gen_codesizes freq256 = inr (nz, cs) ->
+  forall c, In c cs -> c <= 32.
+Proof. exact gen_codesizes_le_32. Qed.
+Print Assumptions C19_codesizes_le_32_below_fib35.
 
-Theorem C19_overflow_at_fib35 :
+Theorem C19_fib35_bound_sharp :
   let h := rev (fibs 33 1 1) in
   hyps h /\ sumZ (firstn 256 h) + 1 = 9227465 /\
-  gen_optimal_table h = inl ClenOverflow.
-Proof. exact gen_no_clen_overflow_sharp. Qed.
-Print Assumptions C19_overflow_at_fib35.
+  exists nz cs, gen_codesizes h = inr (nz, cs) /\ In 33 cs.
+Proof. exact gen_codesizes_le_32_sharp. Qed.
+Print Assumptions C19_fib35_bound_sharp.
+
+Theorem C19_deepest_admissible_histogram :
+  hyps (fibs 41 1 2) /\ sumZ (fibs 41 1 2) = 701408731 /\ ~ hyps (fibs 42 1 2) /\
+  (exists nz cs, gen_codesizes (fibs 41 1 2) = inr (nz, cs) /\ In 41 cs) /\
+  exists t, gen_optimal_table (fibs 41 1 2) = inr t /\ valid_table t = true.
+Proof. exact gen_table_deepest_admissible. Qed.
+Print Assumptions C19_deepest_admissible_histogram.
+
+(* the constants of the model are those of jchuff.c as it is now (regenerated) *)
+Theorem C19_source_constants :
+  MAX_CLEN = gen_MAX_CLEN /\ SENT = gen_SENT /\ DEAD = gen_DEAD /\
+  LIMIT_LEN = gen_LIMIT_LEN /\ PSEUDO_SYM = gen_PSEUDO_SYM /\ PSEUDO_COUNT = gen_PSEUDO_COUNT /\
+  S MAX_CLEN = gen_BITS_LEN /\ S LIMIT_LEN = gen_HTBL_BITS /\
+  gen_clen_test_strict = true /\ SENT < DEAD /\ (LIMIT_LEN < MAX_CLEN)%nat.
+Proof. exact huffgen_constants_match. Qed.
+Print Assumptions C19_source_constants.
